@@ -267,6 +267,11 @@ where
         _ => (true, qualifiers),
     };
 
+    // `null` is a valid default wherever the type is nullable.
+    if is_optional && matches!(value, Value::Null) {
+        return quote!(None);
+    }
+
     let inner = match (qualifiers.first(), value) {
         (Some(GraphqlTypeQualifier::List), Value::List(elements)) => {
             let elements = elements.iter().map(|element| {
